@@ -224,6 +224,16 @@ class InvVolAlpha(object):
         return w
 
 
+class SwitchAlpha(object):
+    """A time-varying model: one weight dict up to an instant, another one afterwards (e.g. a hedge that is dropped)."""
+
+    def __init__(self, first, then, when):
+        self.first, self.then, self.when = first, then, when
+
+    def __call__(self, dt):
+        return dict(self.first if dt < self.when else self.then)
+
+
 class MomSignAlpha(object):
     def __init__(self, signals, lookback, universe):
         self.signals, self.lookback, self.universe = signals, lookback, universe
@@ -317,6 +327,8 @@ def build(cfg, world, shared=None):
         alpha = FixedSignalsAlphaModel(dict(al['weights']))
     elif al['kind'] == 'single':
         alpha = SingleSignalAlphaModel(universe, signal=al.get('signal', 1.0))
+    elif al['kind'] == 'switch':
+        alpha = SwitchAlpha(al['first'], al['then'], ts(al['when']))
     elif al['kind'] == 'topn_mom':
         sigs['momentum'] = MomentumSignal(start, sig_universe, lookbacks=[al['lookback']] + list(al.get('extra_lookbacks', [])))
         signals = SignalsCollection(sigs, sig_handler)
@@ -1042,6 +1054,19 @@ def gen_cfg(rng, alpha_kinds=('fixed',), universe_kinds=('static',), max_days=25
                 share = w[a0] / sum(w.values())
                 mk.setdefault('level', {})[a0[3:]] = cfg['cash'] * (1 - cfg['buffer']) * share * rng.choice([0.45, 0.9, 0.97, 1.02])
         cfg['alpha'] = {'kind': 'fixed', 'weights': w}
+    elif ak == 'switch':
+        # a static universe of all but the last asset; the model also weights that outsider for a while, then drops it:
+        # the asset set of the rebalances shrinks during the session
+        members = assets[:-1] if len(assets) >= 2 else list(assets)
+        outsider = assets[-1]
+        cfg['universe'] = {'kind': 'static', 'assets': members}
+        sgn = 1.0
+        first_w = {a: rng.choice([1.0, 0.5]) for a in members}
+        first_w[outsider] = rng.choice([0.3, 1.0]) * (sgn if cfg['long_only'] or rng.random() < 0.5 else -1.0)
+        then_w = {a: rng.choice([1.0, 0.25]) for a in members}
+        when = d0 + dt.timedelta(days=max(3, int(ndays * 7 / 5 * rng.choice([0.3, 0.5, 0.7]))))
+        cfg['alpha'] = {'kind': 'switch', 'first': first_w, 'then': then_w, 'when': '%s 00:00:00+00:00' % when.isoformat()}
+        mk.pop('late', None)
     elif ak == 'single':
         cfg['alpha'] = {'kind': 'single', 'signal': rng.choice([1.0, 0.5, 2.0] if cfg['long_only'] else [1.0, -1.0, 0.5])}
     elif ak == 'topn_mom':
